@@ -29,6 +29,7 @@ type MCmd struct {
 	ResumeNth  int
 	Entry      []string // track: lines of the entry (first line starts with the value)
 	Should     *int     // create --should
+	ShouldText string   // create --should, raw spelling (overrides Should; CLI path only)
 	RecSummary []string // create --summary
 	NoTags     bool     // pause --no-tags
 	Extend     bool     // pause --extend
@@ -72,6 +73,9 @@ func joinLines(ls []string) string { return strings.Join(ls, "\n") }
 // Args renders the command line (the file argument is appended by the caller).
 func (c MCmd) Args() []string {
 	a := []string{c.Kind}
+	if c.Kind == "bookmarks" { // `klog bookmarks set --create FILE`: the one file-writing command outside the reconciler
+		a = []string{"bookmarks", "set", "--create"}
+	}
 	esc := func(s string) string {
 		// the CLI reads a leading '-' of an entry/summary as a flag: it has to be escaped
 		if strings.HasPrefix(s, "-") {
@@ -104,7 +108,9 @@ func (c MCmd) Args() []string {
 		a = append(a, "--resume-nth="+strconv.Itoa(c.ResumeNth))
 	}
 	if c.Kind == "create" {
-		if c.Should != nil {
+		if c.ShouldText != "" {
+			a = append(a, "--should="+c.ShouldText)
+		} else if c.Should != nil {
 			a = append(a, "--should="+ref.FormatPlainDuration(*c.Should)+"!")
 		}
 		if c.RecSummary != nil {
@@ -237,7 +243,7 @@ func runMutating(e *core.Env, c MCmd, env MEnv, file string, viaCLI bool) MResul
 	}
 	if viaCLI {
 		args := c.Args()
-		if !c.Warn {
+		if !c.Warn && c.Kind != "bookmarks" {
 			args = append(args, "--no-warn")
 		}
 		if file != "" {
@@ -245,7 +251,7 @@ func runMutating(e *core.Env, c MCmd, env MEnv, file string, viaCLI bool) MResul
 		}
 		cres := obs.RunCLI(obs.CLIEnv{ConfigDir: e.Dir + "/cfg", Cpus: env.Cpus, Theme: "no_colour", ConfigFile: env.ConfigFile(), Clock: clock, OnPrint: onPrint}, args...)
 		res.Panic, res.Code, res.Out, res.ErrText = cres.Panic, cres.Code, cres.Out, cres.Err
-		res.OK = cres.Panic == nil && cres.Code == 0
+		res.OK = cres.Panic == nil && cres.Code == 0 && cres.Err == ""
 		if strings.HasPrefix(cres.Err, "Invocation error") {
 			res.Rejected = true
 		}
